@@ -4,9 +4,6 @@ From Coq Require Import List Bool Arith Lia.
 From Falco Require Import Base.Bytes Model.Ignore Model.IgnoreSpec Proofs.IgnoreBasics Proofs.IgnoreSim.
 Import ListNotations.
 
-(* same final state, queues and output filtered by F *)
-Definition sim_eq (F : diag -> bool) (r' r : rres) : Prop :=
-  r_st r' = r_st r /\ r_qv r' = filter F (r_qv r) /\ r_qp r' = filter F (r_qp r) /\ r_out r' = filter F (r_out r).
 
 Section Outside.
   Variable F : diag -> bool.
